@@ -417,14 +417,14 @@ impl RaftStorage<ClientRequest, ClientResponse> for FileStore {
             .send(StateApplyRequest::ApplySnapshot { snapshot })
             .await??;
         //清除废弃日志
-        // delete_through == None: the whole local log is older than the snapshot and has to go
-        let split_off_index = if let Some(v) = delete_through {
-            v + 1
-        } else {
-            u64::MAX
-        };
+        // The whole local log has to go, whatever `delete_through` says. With `None` it is older
+        // than the snapshot. With `Some(index)` the local log is longer than the snapshot, but
+        // RaftCore continues with last_log_index = index in both cases and sends index + 1 next,
+        // and this log only accepts the entry that follows its last one: a kept suffix (entries
+        // of an old term that were never committed) would make that append fail for good.
+        let _ = delete_through;
         self.log_manager
-            .send(RaftLogManagerRequest::SplitOff(split_off_index))
+            .send(RaftLogManagerRequest::SplitOff(u64::MAX))
             .await??;
         //add new_snapshot_pointer
         let membership_config = self.get_membership_config().await?;
